@@ -258,6 +258,17 @@ def main(run):
     caps = capo[0].split("=")[1]
     run.cov["caps"] = caps
 
+    if getattr(run, "replay", None):
+        # re-run the case(s) named in a replay file through both variants, nothing else
+        lines = [ln.split(":", 1)[1].strip() for ln in open(run.replay)
+                 if ln.startswith("case") or ln.startswith("other case")]
+        run_batch(cx, model, drv, lines, "base")
+        run_batch(cx, model, drv_asan, lines, "asan")
+        for ln in lines:
+            run.count(ln, nontrivial(ln))
+            run.sample({"case": ln[:200]})
+        run.cov["replayed"] = len(lines)
+        return
     base_lines = []      # base variant
     asan_lines = []      # additionally through the asan variant
     corpus = vlib.read_corpus("C16")
